@@ -139,6 +139,36 @@ find8(const uint8_t *hay, size_t n, const uint8_t *v)
         const uint8_t *a = memmem(hay, n, v, 8);
         return a ? a : memmem(hay, n, v + 8, 8);
 }
+/* search every observable location for either half of one 16-byte value; returns the location name or NULL */
+static const char *
+search_secret(struct mmgr *mm, const uint8_t v[16], int with_mgr, long *off)
+{
+        struct tramp_ctx *tc = &g_cm->tc;
+        const uint8_t *a;
+        int degenerate = 1;
+        for (int b = 1; b < 8; b++)
+                if (v[b] != v[0] || v[8 + b] != v[8])
+                        degenerate = 0;
+        if (degenerate)
+                return NULL;
+        if ((a = find8((const uint8_t *) tc->out_gpr, sizeof tc->out_gpr, v))) {
+                *off = a - (const uint8_t *) tc->out_gpr;
+                return "gpr";
+        }
+        if ((a = find8(tc->vec, sizeof tc->vec, v))) {
+                *off = (a - tc->vec) / 64;
+                return "vec-reg";
+        }
+        if (g_cm->stackcopy && (a = find8(g_cm->stackcopy, TRAMP_STACK_WINDOW, v))) {
+                *off = (a - g_cm->stackcopy) - TRAMP_STACK_WINDOW;
+                return "stack";
+        }
+        if (with_mgr && (a = find8((const uint8_t *) mm->m, imb_get_mb_mgr_size(), v))) {
+                *off = a - (const uint8_t *) mm->m;
+                return "mgr";
+        }
+        return NULL;
+}
 static int g_value_mode, g_value_njobs;
 static uint64_t n_value_searches;
 struct vhit {
@@ -404,6 +434,127 @@ helper_scans(struct mmgr *mm)
         }
 }
 
+/* ---- direct (manager-less) AEAD calls: after each call the secrets of the operation are searched by value */
+static uint64_t n_direct_value_scans;
+static void
+direct_report(struct mmgr *mm, const char *fn, const struct secret *s, int ns)
+{
+        for (int k = 0; k < ns; k++) {
+                long off = 0;
+                const char *where = search_secret(mm, s[k].v, 0, &off);
+                n_value_searches++;
+                if (where) {
+                        char key[200], det[300];
+                        snprintf(key, sizeof key, "C13|%s|direct|%s|DERIVED-%s|%s", variant_name(mm->variant), fn, s[k].name, where);
+                        snprintf(det, sizeof det, "secret %s (8 bytes of its value) found in %s at %ld after %s returned", s[k].name, where, off, fn);
+                        ev_violation("C13", key, det, NULL);
+                }
+        }
+        n_direct_value_scans++;
+        cov_hit("C13", "%s|direct-values|%s", variant_name(mm->variant), fn);
+}
+static void
+direct_value_scans(struct mmgr *mm, struct rng *r)
+{
+        IMB_MGR *m = mm->m;
+        static struct gcm_key_data gk;
+        static struct gcm_context_data gctx;
+        static struct chacha20_poly1305_context_data cctx;
+        static uint8_t pt[1200], ct[1200], aad[64], tag[16];
+        uint8_t key[32], iv[12], z[16] = { 0 }, j0[16];
+        struct secret s[6];
+        for (int ks = 16; ks <= 32; ks += 8) {
+                struct ref_aes_key ak;
+                size_t len = 1 + rng_below(r, sizeof pt), aadl = rng_below(r, sizeof aad + 1);
+                int ns = 0;
+                rng_bytes(r, key, sizeof key);
+                rng_bytes(r, iv, sizeof iv);
+                rng_bytes(r, pt, len);
+                rng_bytes(r, aad, sizeof aad);
+                memset(&ak, 0, sizeof ak);
+                ak.keylen = ks;
+                memcpy(ak.key, key, (size_t) ks);
+                ref_aes_enc(&ak, z, s[ns].v);
+                snprintf(s[ns++].name, sizeof s[0].name, "H");
+                memcpy(j0, iv, 12);
+                j0[12] = j0[13] = j0[14] = 0;
+                j0[15] = 1;
+                ref_aes_enc(&ak, j0, s[ns].v);
+                snprintf(s[ns++].name, sizeof s[0].name, "EJ0");
+                memcpy(s[ns].v, key, 16);
+                snprintf(s[ns++].name, sizeof s[0].name, "KEY");
+                void *pre = ks == 16 ? (void *) m->gcm128_pre : ks == 24 ? (void *) m->gcm192_pre : (void *) m->gcm256_pre;
+                void *enc = ks == 16 ? (void *) m->gcm128_enc : ks == 24 ? (void *) m->gcm192_enc : (void *) m->gcm256_enc;
+                void *dec = ks == 16 ? (void *) m->gcm128_dec : ks == 24 ? (void *) m->gcm192_dec : (void *) m->gcm256_dec;
+                void *ini = ks == 16 ? (void *) m->gcm128_init : ks == 24 ? (void *) m->gcm192_init : (void *) m->gcm256_init;
+                void *upd = ks == 16 ? (void *) m->gcm128_enc_update : ks == 24 ? (void *) m->gcm192_enc_update : (void *) m->gcm256_enc_update;
+                void *fin = ks == 16 ? (void *) m->gcm128_enc_finalize : ks == 24 ? (void *) m->gcm192_enc_finalize : (void *) m->gcm256_enc_finalize;
+                g_cm->want_residue = 1;
+                mcall("gcm_pre", pre, 2, (uint64_t) key, (uint64_t) &gk);
+                direct_report(mm, "gcm_pre", s, ns);
+                mcall("gcm_enc", enc, 10, (uint64_t) &gk, (uint64_t) &gctx, (uint64_t) ct, (uint64_t) pt, (uint64_t) len, (uint64_t) iv, (uint64_t) aad,
+                      (uint64_t) aadl, (uint64_t) tag, (uint64_t) 16);
+                direct_report(mm, "gcm_enc", s, ns);
+                mcall("gcm_dec", dec, 10, (uint64_t) &gk, (uint64_t) &gctx, (uint64_t) pt, (uint64_t) ct, (uint64_t) len, (uint64_t) iv, (uint64_t) aad,
+                      (uint64_t) aadl, (uint64_t) tag, (uint64_t) 16);
+                direct_report(mm, "gcm_dec", s, ns);
+                mcall("gcm_init", ini, 5, (uint64_t) &gk, (uint64_t) &gctx, (uint64_t) iv, (uint64_t) aad, (uint64_t) aadl);
+                direct_report(mm, "gcm_init", s, ns);
+                mcall("gcm_enc_update", upd, 5, (uint64_t) &gk, (uint64_t) &gctx, (uint64_t) ct, (uint64_t) pt, (uint64_t) len);
+                direct_report(mm, "gcm_enc_update", s, ns);
+                mcall("gcm_enc_finalize", fin, 4, (uint64_t) &gk, (uint64_t) &gctx, (uint64_t) tag, (uint64_t) 16);
+                direct_report(mm, "gcm_enc_finalize", s, ns);
+                g_cm->want_residue = 0;
+        }
+        {
+                /* GHASH: the hash key is the secret */
+                int ns = 0;
+                size_t len = 1 + rng_below(r, sizeof pt);
+                rng_bytes(r, key, 16);
+                rng_bytes(r, pt, len);
+                memcpy(s[ns].v, key, 16);
+                snprintf(s[ns++].name, sizeof s[0].name, "H");
+                memset(tag, 0, sizeof tag);
+                g_cm->want_residue = 1;
+                mcall("ghash_pre", (void *) m->ghash_pre, 2, (uint64_t) key, (uint64_t) &gk);
+                direct_report(mm, "ghash_pre", s, ns);
+                mcall("ghash", (void *) m->ghash, 5, (uint64_t) &gk, (uint64_t) pt, (uint64_t) len, (uint64_t) tag, (uint64_t) 16);
+                direct_report(mm, "ghash", s, ns);
+                g_cm->want_residue = 0;
+        }
+        {
+                /* ChaCha20-Poly1305 init / update / finalize: key and the one-time Poly1305 key */
+                uint8_t zero[32] = { 0 }, pk[32];
+                int ns = 0;
+                size_t len = 1 + rng_below(r, sizeof pt), aadl = rng_below(r, sizeof aad + 1);
+                rng_bytes(r, key, 32);
+                rng_bytes(r, iv, 12);
+                rng_bytes(r, pt, len);
+                ref_chacha20(key, 0, iv, zero, pk, 32);
+                memcpy(s[ns].v, pk, 16);
+                snprintf(s[ns++].name, sizeof s[0].name, "POLY-R");
+                memcpy(s[ns].v, pk + 16, 16);
+                snprintf(s[ns++].name, sizeof s[0].name, "POLY-S");
+                memcpy(s[ns].v, key, 16);
+                snprintf(s[ns++].name, sizeof s[0].name, "KEY-LO");
+                memcpy(s[ns].v, key + 16, 16);
+                snprintf(s[ns++].name, sizeof s[0].name, "KEY-HI");
+                g_cm->want_residue = 1;
+                mcall("chacha20_poly1305_init", (void *) m->chacha20_poly1305_init, 5, (uint64_t) key, (uint64_t) &cctx, (uint64_t) iv, (uint64_t) aad,
+                      (uint64_t) aadl);
+                direct_report(mm, "chacha20_poly1305_init", s, ns);
+                mcall("chacha20_poly1305_enc_update", (void *) m->chacha20_poly1305_enc_update, 5, (uint64_t) key, (uint64_t) &cctx, (uint64_t) ct,
+                      (uint64_t) pt, (uint64_t) len);
+                direct_report(mm, "chacha20_poly1305_enc_update", s, ns);
+                mcall("chacha20_poly1305_dec_update", (void *) m->chacha20_poly1305_dec_update, 5, (uint64_t) key, (uint64_t) &cctx, (uint64_t) pt,
+                      (uint64_t) ct, (uint64_t) len);
+                direct_report(mm, "chacha20_poly1305_dec_update", s, ns);
+                mcall("chacha20_poly1305_finalize", (void *) m->chacha20_poly1305_finalize, 3, (uint64_t) &cctx, (uint64_t) tag, (uint64_t) 16);
+                direct_report(mm, "chacha20_poly1305_finalize", s, ns);
+                g_cm->want_residue = 0;
+        }
+}
+
 int
 eng_residue(void)
 {
@@ -425,6 +576,12 @@ eng_residue(void)
                 pick_patterns(mm);
                 if (g_opt.shard == vi % g_opt.nshards)
                         helper_scans(mm);
+                {
+                        struct rng dr;
+                        rng_seed(&dr, g_opt.seed * 977 + (uint64_t) vi * 131 + (uint64_t) g_opt.shard);
+                        for (int k = 0; k < (g_opt.tier ? 40 : 6) && g_opt.from_case <= 0; k++)
+                                direct_value_scans(mm, &dr);
+                }
                 long per = g_opt.cases / g_nvariants + 1;
                 for (long e = 0; e < per; e++, unit++) {
                         if (unit % g_opt.nshards != g_opt.shard)
@@ -545,5 +702,6 @@ eng_residue(void)
         cov_count("single_pattern_hits", n_single_hits);
         cov_count("helper_scans", n_helper_scans);
         cov_count("derived_secret_searches", n_value_searches);
+        cov_count("direct_value_scans", n_direct_value_scans);
         return 0;
 }
